@@ -452,6 +452,44 @@ def evalLife (p : Pending) (glob : Oracle) (obsToks : List String) : String :=
   if eq && hi && hm && !miss then head else head ++ " | " ++ showLog pm ++ " | " ++ showLog pi ++ " | " ++
     " ".intercalate ((ora.misc.filter fun f => f.head? == some "leak").map fun f => ":".intercalate f)
 
+/-! language `tls` -/
+
+def evalTls (p : Pending) (glob : Oracle) (obsToks : List String) : String :=
+  let ora : Oracle := { urls := glob.urls ++ p.ora.urls, pages := glob.pages ++ p.ora.pages, misc := p.ora.misc }
+  let env := ora.env
+  let tls := p.toks.contains "tls"
+  let client : C20.Client := (p.toks.findSome? fun t => match fields t with
+    | ["raw", b] => some (C20.Client.raw (unhex b))
+    | ["ssl", b] => some (C20.Client.ssl (unhex b))
+    | _ => none).getD (.raw [])
+  -- the request a clear-text client's bytes amount to on a plain server, if any
+  let reqOf (bytes : Bytes) : List Tls.TEv :=
+    match C01.headOf bytes with
+    | some h => (match C01.expect env h with | some f => [.request f.rawPath] | none => [])
+    | none => []
+  let evs : List Tls.TEv := match client with
+    | .raw b => [.connect, .clear b] ++ (if tls then [] else reqOf b) ++ [.clientClose]
+    | .ssl t =>
+      -- the target must be one the parser accepts, else nothing is routed either way
+      let routed := reqOf (lit ['G','E','T',' '] ++ t ++ lit [' ','H','T','T','P','/','1','.','1'] ++ CRLF2)
+      [.connect] ++ (if tls then [.handshakeDone] else []) ++ routed ++ [.clientClose]
+  let mlog := (Tls.run tls evs).log
+  let ilog := (obsToks.filter (· != "end")).filterMap parseObs
+  let badTok := obsToks.filter (fun t => t != "end" && (parseObs t).isNone)
+  let keepR (o : Obs) : Bool := match o with | .misc 41 _ => false | .misc 42 _ => false | .mw _ _ => false | _ => true
+  let pm := mlog.filter keepR
+  let pi := ilog.filter keepR
+  -- for an ssl client the expected routing is exactly the accepted request (none if rejected)
+  let client' : C20.Client := match client with
+    | .ssl t => if (reqOf (lit ['G','E','T',' '] ++ t ++ lit [' ','H','T','T','P','/','1','.','1'] ++ CRLF2)).isEmpty then .raw [] else .ssl t
+    | c => c
+  let eq := pm == pi
+  let hm := C20.holds tls client' mlog
+  let hi := C20.holds tls client' ilog
+  let b (x : Bool) := if x then "1" else "0"
+  let head := s!"RES {p.prop} {p.id} eq={b eq} hm={b hm} hi={b hi} miss={b (!badTok.isEmpty)} crash={b (obsToks.contains "crash")}"
+  if eq && hi && hm && badTok.isEmpty then head else head ++ " | " ++ showLog pm ++ " | " ++ showLog pi
+
 partial def loop (h : IO.FS.Stream) (glob : Oracle) (cur : Pending) : IO Unit := do
   let line ← h.getLine
   if line.isEmpty then return ()
@@ -475,6 +513,7 @@ partial def loop (h : IO.FS.Stream) (glob : Oracle) (cur : Pending) : IO Unit :=
       | "lauth" => evalLauth cur rest
       | "proxy" => evalProxy cur glob rest
       | "life" => evalLife cur glob rest
+      | "tls" => evalTls cur glob rest
       | l => s!"RES {cur.prop} {cur.id} eq=0 hm=0 hi=0 miss=1 crash=0 | unknown language {l}"
     IO.println out
     loop h glob cur
